@@ -19,7 +19,9 @@ def oracle(case, rec, group):
     # after the program (completed or aborted by an exception propagating out of guarded regions): initial state again
     if not none or ign != bool(case["cfg"]["ign"]) or not one:
         blk = any(s[0] in ("oif", "owhile", "ofor") for s in case["prog"])
-        out.append(dict(op="restore", key="after-%s%s" % ("exception" if rec["exn"] else "return", "-inside-block-api-region" if blk and rec["exn"] else ""),
+        # an error raised by the block's own exit (merge of the tracked variables) comes AFTER the guard was restored
+        at_exit = rec["exn"] == "RuntimeError" and any(t in (rec["msg"] or "") for t in ("branch did not set value", "branch set spurious value", "conditional write to undefined", "if branch set"))
+        out.append(dict(op="restore", key="after-%s%s" % ("exception" if rec["exn"] else "return", ("-raised-by-block-exit" if at_exit else "-inside-block-api-region") if blk and rec["exn"] else ""),
                         what="after the outermost guarded region ended (%s) the guard / error-suppression mode / constant ONE are not what they were before" % (rec["exn"] or "normally"),
                         observed=dict(guard_is_None=none, ignore_errors=ign, ONE_is_constant=one), pc=rec.get("exn_pc")))
     # the guard WIRES (not only their values) are a function of the program: two completing runs of one program on
